@@ -535,6 +535,7 @@ Definition f_parent :=
             FocusParent;
             Try (seqs [ new_process Other FStatE;
                         If (TFlag F_NOIDENT) (SetFlag F_PNOIDENT true) (SetFlag F_PNOIDENT false);
+                        SetFlag F_PGONE false; SetFlag F_PREUSED false;     (* a NEW parent object *)
                         Call (wrapped_at Other FStatE (bcat Other FStatE));
                         SetFlag F_HASPARENT true; Ret ])
                 (handlers [(HNSP, Skip)]) Skip;
